@@ -1,6 +1,7 @@
 """C18 — substitution rewrites exactly the matched nodes with the filled-in template."""
 
 import ast
+import json
 import random
 
 import c18_lib as L
@@ -18,12 +19,16 @@ RULE = ('generated small programs (calls, lists, tuples, operators, attributes, 
         'sub-sequence quantifiers, multi-node and whole-match tags; expression and statement patterns) x 40 template formats '
         '(slot as whole template, in a call argument list, in list/tuple elements, as operand, as value of attribute/subscript, '
         'as statement in a body, in a multi-statement template, whole-match slot, two tags, a tag used twice, a tag the pattern '
-        'never sets, __FST_/__FSS_/__FSO_ prefixes) x nested x on(enter/leave) x count(0..3) x loop(False,1,2,3,True), plus the '
-        'documentation examples as directed cases. (a) correspondence: tree, per-node match results of the REAL matcher and the '
+        'never sets, __FST_/__FSS_/__FSO_ prefixes; slots inside string and bytes constants: several on one line and in one '
+        'constant, mixed with node slots, multi-line strings, multi-byte text, captured text shorter/longer than the slot name) '
+        'x nested x on(enter/leave) x count(0..3) x loop(False,1,2,3,True); loop chains: 7 pattern/template pairs whose rewrite '
+        'keeps matching a bounded number of times, over programs with 2-5 match locations of different chain lengths (0..6), '
+        'loop in {1,2,3,4,6,True}; plus the documentation examples as directed cases. (a) correspondence: tree, per-node match results of the REAL matcher and the '
         'template are translated into the Lean model; when the model asks about a tree that did not exist in the input (leave, '
         'loop) the real matcher is asked and the case re-run; result tree (ctx kept) and both counts compared with the real subn. '
         '(b) sweep: the real subn against a pure-AST reference transformer written in the harness (copy.deepcopy, captures taken '
-        'by path, no index arithmetic), plus tree==parse(source) of the result, counts, identity template, exact lines of '
+        'by path, no index arithmetic, loop counted per location; string slots = textual substitution judged on the RE-PARSED '
+        'result: the Constant value must be the template text with every slot replaced by text that parses to the captured node), plus tree==parse(source) of the result, counts, identity template, exact lines of '
         'top-level statements that contain no substituted node. distinct = distinct (program, pattern, template, settings); '
         'non-trivial = at least one substitution made')
 TRUSTED = ['modelled (Pfst/Sub.lean): subn driver = search/walk order for on=enter and on=leave with the walk mutation rules '
@@ -34,7 +39,7 @@ TRUSTED = ['modelled (Pfst/Sub.lean): subn driver = search/walk order for on=ent
            'multi-statement (Module) templates; slice-vs-one decision (one = not slice, one_override, pfield.idx is None); '
            '_sub_quantifier_list_edge_item index arithmetic and the _get_slice range',
            'not modelled: the matcher (parameter; C17), copy/put/coercion of source text (C01/C04/C19; the sweep checks the '
-           'result with CPython), slots other than Name (identifier slots, string slots, Dict/MatchMapping "...": pairs, '
+           'result with CPython), slots other than Name (identifier slots; string slots are in the reference sweep only, not in the model; Dict/MatchMapping "...": pairs, '
            'comprehension/ExceptHandler/match_case forms), the special parents BoolOp/Compare/withitem/arguments/MatchClass/'
            'keyword, __FSO_ on a slice and __FSS_ on a node (container coercions), callback/callback_after, self_/recurse/'
            'scope/back/asts, f-string parents; generated cases falling there are tallied as skipped',
@@ -195,68 +200,104 @@ def _real(job):
     return {'tree': L.to_gen(root.a), 'unique': u, 'total': t, 'src': root.src}
 
 
-def run_model(ctx, states):
-    """states with 'case' -> model outputs (need-protocol: unknown matcher queries are answered by the real matcher)"""
-    live = [s for s in states if 'skip' not in s]
+def _lean_batch(cases):
+    """cases through the native driver (called inside a worker; one JSON line per case in, one per case out)"""
+    import subprocess
+    import framework
+    if not cases:
+        return []
+    exe = framework.LEAN / '.lake' / 'build' / 'bin' / 'driver'
+    data = ''.join(json.dumps(c, separators=(',', ':')) + '\n' for c in cases)
+    p = subprocess.run([str(exe)], input=data, capture_output=True, text=True, timeout=600)
+    lines = p.stdout.splitlines()
+    if p.returncode != 0 or len(lines) != len(cases):
+        raise RuntimeError('driver failed: ' + p.stderr[:200])
+    return [json.loads(l).get('out', {}) for l in lines]
+
+
+def _close_models(states):
+    """run the model on every state; whenever it asks the matcher about a tree that is not in the table (intermediate
+    trees of on=leave / loop), ask the real matcher and run again.  -> {index: model output}; st['skip'] set otherwise"""
     outs = {}
-    for rnd in range(MAX_ROUNDS):
-        todo = [s for s in live if id(s) not in outs and 'skip' not in s]
-        if not todo:
+    open_ = [i for i, st in enumerate(states) if 'skip' not in st]
+    for rnd in range(MAX_ROUNDS + 6):
+        if not open_:
             break
-        res = ctx.lean([_finish_case(s) for s in todo])
-        ext = []
-        for s, o in zip(todo, res):
-            o = o.get('out', o)
+        res = _lean_batch([_finish_case(states[i]) for i in open_])
+        nxt = []
+        for i, o in zip(open_, res):
+            st = states[i]
             if 'trees' not in o:
-                s['skip'] = 'driver: ' + str(o)[:80]
-                continue
-            if o['need']:
-                ext.append((s, o['need']))
+                st['skip'] = 'driver: ' + str(o)[:80]
+            elif not o['need']:
+                outs[i] = o
             else:
-                outs[id(s)] = o
-        if ext:
-            new = pmap(_extend, ext)
-            for (s, _), n in zip(ext, new):
-                n = dict(n)
-                s.clear()
-                s.update(n)
-                # `s` keeps its identity (outs is keyed by id)
-    for s in live:
-        if id(s) not in outs and 'skip' not in s:
-            s['skip'] = 'matcher table did not close in %d rounds' % MAX_ROUNDS
+                n = _extend(( st, o['need']))
+                if n is not st:
+                    st.clear()
+                    st.update(n)
+                if 'skip' not in st:
+                    nxt.append(i)
+        open_ = nxt
+    for i in open_:
+        states[i]['skip'] = 'matcher table did not close in %d rounds' % (MAX_ROUNDS + 6)
     return outs
+
+
+def _pipeline_chunk(jobs):
+    """prepare -> model (with matcher-table closure) -> real subn, for a chunk of jobs inside one worker"""
+    states = [_prepare(j) for j in jobs]
+    outs = _close_models(states)
+    results = []
+    for i, (job, st) in enumerate(zip(jobs, states)):
+        if i not in outs:
+            results.append({'job': job, 'skip': st.get('skip', 'no model output')})
+            continue
+        o = outs[i]
+        I = L.Intern()
+        for nm in st['labels']:
+            I(nm)
+        out = {'job': job, 'err': o['err'], 'unique': o['unique'], 'total': o['total'],
+               'trees': [I.untree(t) for t in o['trees']]}
+        if o['err'] != 3:
+            out['real'] = _real(job)
+        results.append(out)
+    return results
+
+
+def run_model(ctx, states):
+    """states with 'case' -> model outputs (kept for debugging tools; the correspondence uses _pipeline)"""
+    o = _close_models(states)
+    return {id(states[i]): v for i, v in o.items()}
 
 
 def correspondence(ctx):
     rng = random.Random(ctx.rng.random())
-    jobs = [dict(j) for j in L.DIRECTED] + L.gen_jobs(rng, 1500 if ctx.quick else 12000)
-    states = pmap(_prepare, jobs)
-    outs = run_model(ctx, states)
-    todo = [s for s in states if id(s) in outs and outs[id(s)]['err'] != 3]
-    reals = pmap(_real, [{k: s[k] for k in ('src', 'pat', 'tmpl', 'set')} for s in todo])
+    jobs = [dict(j) for j in L.DIRECTED] + L.gen_jobs(rng, 800 if ctx.quick else 9000, string_slots=False) \
+        + L.gen_chain_jobs(rng, 300 if ctx.quick else 3000)
+    k = max(1, len(jobs) // 32)
+    rng.shuffle(jobs)
+    results = [r for lst in pmap(_pipeline_chunk, [jobs[i:i + k] for i in range(0, len(jobs), k)], chunksize=1) for r in lst]
     name = 'subn vs Pfst.Sub.run'
-    bad = 0
-    n = 0
-    for s in states:
-        if 'skip' in s:
-            ctx.tally('corr_skipped', s['skip'])
-    for s in states:
-        if id(s) in outs and outs[id(s)]['err'] == 3:
+    bad = n = refused = 0
+    first = None
+    for res in results:
+        s = res['job']
+        if 'skip' in res:
+            ctx.tally('corr_skipped', res['skip'])
+            continue
+        if res['err'] == 3:
             ctx.tally('corr_skipped', 'model out of fuel (non-terminating loop)')
-    refused = 0
-    for s, r in zip(todo, reals):
-        o = outs[id(s)]
-        I = L.Intern()
-        for nm in s['labels']:
-            I(nm)
-        sig = f'{s["shape"]}|{s["placement"]}|{L.setting_name(s["set"])}'
-        if o['err'] == 2:
+            continue
+        if res['err'] == 2:
             ctx.tally('corr_skipped', 'slot put outside the modelled set (unsup)')
             continue
+        r = res['real']
+        sig = f'{s["shape"]}|{s["placement"]}|{L.setting_name(s["set"])}'
         n += 1
         ctx.corr_cases += 1
         what = None
-        if o['err'] == 1:
+        if res['err'] == 1:
             ctx.tally('corr_outcome', 'both refuse')
             if 'exc' not in r:
                 what = 'model: pfst raises (documented refusal); pfst returned a result'
@@ -272,28 +313,30 @@ def correspondence(ctx):
                 continue
             what = f'pfst raised {r["exc"]}: {r.get("msg", "")}'
         else:
-            mt = [I.untree(t) for t in o['trees']]
-            nontrivial = o['total'] > 0
-            ctx.count((s['src'], s['pat'], s['tmpl'], str(s['set'])), nontrivial)
+            ctx.count((s['src'], s['pat'], s['tmpl'], str(s['set'])), res['total'] > 0)
             ctx.tally('corr_setting', L.setting_name(s['set']))
             ctx.tally('corr_shape_placement', f'{s["shape"]}|{s["placement"]}')
-            if len(mt) != 1 or mt[0] != r['tree']:
+            if s['set']['loop'] is not False:
+                ctx.tally('corr_loop', f'loop={s["set"]["loop"]} unique={res["unique"]} total={res["total"]}'
+                          if res['total'] > res['unique'] else f'loop={s["set"]["loop"]} no re-application')
+            if len(res['trees']) != 1 or res['trees'][0] != r['tree']:
                 what = 'result trees differ'
-            elif o['unique'] != r['unique'] or o['total'] != r['total']:
-                what = f'counts differ: model {(o["unique"], o["total"])} pfst {(r["unique"], r["total"])}'
+            elif res['unique'] != r['unique'] or res['total'] != r['total']:
+                what = f'counts differ: model {(res["unique"], res["total"])} pfst {(r["unique"], r["total"])}'
         if what:
             bad += 1
-            job = {k: s[k] for k in ('src', 'pat', 'tmpl', 'set', 'shape', 'placement')}
+            job = {k: s[k] for k in ('src', 'pat', 'tmpl', 'set', 'shape', 'placement', 'cat')}
             if len(ctx.corr_disagreements) < 20:
                 ctx.corr_disagreements.append({'corr': name, 'sig': sig, 'what': what, 'job': job,
-                                               'pfst_src': r.get('src'), 'model_counts': [o['unique'], o['total']]})
+                                               'pfst_src': r.get('src'), 'model_counts': [res['unique'], res['total']]})
             ctx.hints.append((name, job))
+        elif first is None and res['total'] > 0:
+            first = s
     ctx.notes['corr_cases_compared'] = n
     ctx.notes['corr_impl_refused'] = refused
     ctx.dist.setdefault('correspondence_cases', {})[name] = n
-    if todo:
-        s = todo[0]
-        ctx.sample({'corr': name, 'src': s['src'][:200], 'pat': s['pat'], 'tmpl': s['tmpl'], 'set': s['set']})
+    if first:
+        ctx.sample({'corr': name, 'src': first['src'][:200], 'pat': first['pat'], 'tmpl': first['tmpl'], 'set': first['set']})
     if n and refused > 0.5 * (n + refused):
         ctx.brk('correspondence', name, f'pfst refused {refused} of {n + refused} generated substitutions (expected well under half)')
     if bad:
@@ -310,7 +353,14 @@ CRASHES = ('AssertionError', 'AttributeError', 'TypeError', 'IndexError', 'KeyEr
 def _subn_full(job):
     import util
     root, u, t = _subn(job)
-    return {'tree': L.to_gen(root.a), 'unique': u, 'total': t, 'src': root.src, 'c01': util.tree_equals_parse(root)}
+    c01 = util.tree_equals_parse(root)
+    stale = False
+    if c01:
+        try:
+            stale = REF.stale_constants_only(root.a, ast.parse(root.src))
+        except SyntaxError:
+            pass
+    return {'tree': L.to_gen(root.a), 'unique': u, 'total': t, 'src': root.src, 'c01': c01, 'stale_only': stale}
 
 
 def _block_preserved(src, out, stmt, others):
@@ -377,8 +427,25 @@ def _sweep_case0(job):
         return res
     res['nsub'] = real['total']
     res['out'] = real['src']
+    strslot = REF.has_string_slot(job['tmpl'])
+    if strslot:
+        # a slot inside a string constant is a textual substitution: judge the re-parsed result source
+        try:
+            exp = ast.unparse(ast.fix_missing_locations(ref))
+        except Exception:
+            exp = None
+        try:
+            got = ast.parse(real['src'])
+        except SyntaxError as e:
+            res['fail'] = ('no-parse', f'result source does not parse: {e}', {'expected_src_slots_unfilled': exp})
+            return res
+        d = REF.cmp_ast(ref, got)
+        if d:
+            res['fail'] = ('tree-differs', 're-parsed result differs from the reference transformer: ' + d,
+                           {'expected_src_slots_unfilled': exp})
+            return res
     g = L.to_gen(ref)
-    if g != real['tree']:
+    if not strslot and g != real['tree']:
         cls = 'tree-differs'
         if s['nested'] and s['on'] == 'enter':
             try:
@@ -397,9 +464,6 @@ def _sweep_case0(job):
     if (ru, rt) != (real['unique'], real['total']):
         res['fail'] = ('counts-differ', f'counts {(real["unique"], real["total"])}, reference {(ru, rt)}')
         return res
-    if real['c01']:
-        res['fail'] = ('c01', 'result tree is not the parse of the result source: ' + real['c01'])
-        return res
     if job['tmpl'] in ('__FST_', '__FSO_') and real['tree'] != L.to_gen(ast.parse(job['src'])):
         res['fail'] = ('identity-changed', 'whole-match template changed the structure')
         return res
@@ -409,6 +473,13 @@ def _sweep_case0(job):
         if not _block_preserved(job['src'], real['src'], st0, pure_body):
             res['fail'] = ('text-outside-changed', f'lines of an untouched statement (line {st.lineno}) changed')
             return res
+    if real['c01']:
+        if strslot and real['stale_only']:
+            res['fail'] = ('constant-value-stale', 'the returned tree keeps the template text as value of a string '
+                           'constant whose slots were filled in the source: ' + real['c01'])
+        else:
+            res['fail'] = ('c01', 'result tree is not the parse of the result source: ' + real['c01'])
+        return res
     res['kept'] = len(kept)
     return res
 
@@ -416,13 +487,15 @@ def _sweep_case0(job):
 def _fail_sig(job, cls):
     if cls == 'slice-no-descent':       # the result equals the reference that does not look inside a slice put
         return 'C18|stmt-pattern|multi-statement-template|enter,nested|slice-no-descent'
+    if cls == 'constant-value-stale':   # C01 fails and the only difference is the value of slot-bearing string constants
+        return 'C18|any|string-slot|any|constant-value-stale'
     return f'C18|{job["shape"]}|{job["placement"]}|{L.setting_name(job["set"])}|{cls}'
 
 
 def sweep_jobs(ctx, n, layouts):
     import corpus
     rng = random.Random(ctx.rng.random())
-    jobs = L.gen_jobs(rng, n)
+    jobs = L.gen_jobs(rng, n) + L.gen_chain_jobs(rng, n // 3, allow_nested=False)
     # the reference covers loop and nested separately
     for j in jobs:
         if j['set']['loop'] is not False and j['set']['nested'] and j['set']['on'] == 'enter':
@@ -464,8 +537,8 @@ def _report(ctx, results):
 
 
 def sweep(ctx):
-    jobs = sweep_jobs(ctx, 1200 if ctx.quick else 10000, True)
-    results = pmap(_sweep_case, jobs)
+    jobs = sweep_jobs(ctx, 700 if ctx.quick else 7500, True)
+    results = pmap(_sweep_case, jobs, chunksize=max(1, len(jobs) // 32))
     n = _report(ctx, results)
     ctx.notes['sweep_cases_judged'] = n
     good = [r for r in results if 'out' in r and 'fail' not in r and r.get('nsub')]
@@ -483,7 +556,7 @@ def search(ctx):
             j.setdefault('cat', 'expr')
             jobs.append(j)
     jobs += sweep_jobs(ctx, 6000, True)
-    results = pmap(_sweep_case, jobs)
+    results = pmap(_sweep_case, jobs, chunksize=max(1, len(jobs) // 32))
     ctx.notes['search_cases_judged'] = _report(ctx, results)
 
 
@@ -495,4 +568,4 @@ def replay(ctx, data):
     job = {k: w[k] for k in ('src', 'pat', 'tmpl', 'set', 'cat', 'shape', 'placement')}
     r = _sweep_case(job)
     if 'fail' in r:
-        ctx.fail('replay', r['fail'][1], w)
+        ctx.fail(_fail_sig(job, r['fail'][0]), r['fail'][1], w)
